@@ -90,6 +90,7 @@ func readLoop(track *rtpUpTrack) {
 			packet.SequenceNumber, packet.Timestamp,
 			kf, packet.Marker, buf[:bytes],
 		)
+		verifTrace(track, VerifTraceStored, packet.SequenceNumber, index)
 
 		_, rate := track.rate.Estimate()
 
@@ -118,6 +119,7 @@ func readLoop(track *rtpUpTrack) {
 				packet.SequenceNumber - unnacked,
 			)
 			if found && sendNACK {
+				verifTrace(track, VerifTraceLoopNACK, first, bitmap)
 				err := track.sendNACK(first, bitmap)
 				if err != nil {
 					log.Printf("%v", err)
